@@ -9,6 +9,7 @@ from vlib.core import Part, Violation, Discard, watchdog, call, canonical
 from vlib import gspec
 
 from mitxgraders import ListGrader, StringGrader
+from mitxgraders.baseclasses import ItemGrader
 from mitxgraders.exceptions import MITxError
 from mitxgraders.sampling import set_seed
 from voluptuous import Error as SchemaError
@@ -155,6 +156,15 @@ def applied_credit(g, attempt):
     return round(float(gspec.decode(c)(max(attempt, 1))), 4)
 
 
+def direct_subgraders(grader):
+    """[(subgrader object, its configured debug flag)] of a ListGrader (empty for other graders)."""
+    if type(grader).__name__ != 'ListGrader':
+        return []
+    subs = grader.config['subgraders']
+    subs = subs if isinstance(subs, list) else [subs]
+    return [(s_, bool(s_.config.get('debug'))) for s_ in subs]
+
+
 def judge(spec, rec):
     g, inp, attempt, debug = spec['g'], spec['input'], spec['attempt'], spec['debug']
     info = gspec.spec_info(g)
@@ -165,9 +175,31 @@ def judge(spec, rec):
         raise Discard('invalid-config/%s' % kind)
     set_seed(spec['seed'])
     kwargs = {} if attempt is None else {'attempt': attempt}
+    subs_pre = direct_subgraders(grader)
     with watchdog(60):
         status, res = call(grader, spec.get('expect'), inp, **kwargs)
     rec.calls()
+    if debug and subs_pre:
+        # history + object identity: a subgrader the author configured WITHOUT debug, called on its own after its
+        # debug=True parent has graded, must still not show any debugging output (a seeded change let the parent
+        # switch its subgraders' debug flag on, for good)
+        for sub, was_debug in subs_pre:
+            if was_debug or not isinstance(inp, list) or not inp:
+                continue
+            probe = inp[0] if isinstance(sub, ItemGrader) else None
+            if probe is None:
+                continue
+            set_seed(spec['seed'])
+            st_, r2 = call(sub, None, probe)
+            rec.calls()
+            rec.cls('subgrader-called-alone-after-debug-parent')
+            if st_ == 'ok' and isinstance(r2, dict):
+                text = r2.get('msg', '') or ''
+                for m in MARKERS:
+                    if m in text and m not in probe:
+                        raise Violation('debug-leak/subgrader-after-debug-parent',
+                                        'a %s configured without debug shows %r when called alone after its debug=True '
+                                        'ListGrader graded' % (type(sub).__name__, m), text=text[:300])
     if status == 'err':
         rec.cls('%s/raised' % kind)
         rec.note('raised/' + ('library-error' if isinstance(res, MITxError) else 'other:' + type(res).__name__))
